@@ -187,3 +187,7 @@ Definition vec_remove {A} (l : list A) (i : N) : outcome (A * list A) :=
   | Some x => Ok (x, firstn (N.to_nat i) l ++ skipn (S (N.to_nat i)) l)
   | None => Panic
   end.
+
+(** [s.split_at(mid)]: panics when [mid > len] *)
+Definition split_at_n {A} (l : list A) (mid : N) : outcome (list A * list A) :=
+  if mid <=? llen l then Ok (firstn (N.to_nat mid) l, skipn (N.to_nat mid) l) else Panic.
